@@ -401,7 +401,11 @@ def deserialize_single_field(  # pylint: disable=too-many-branches
             keep_undefined=keep_undefined,
         )
     elif isinstance(field, SerializableField):
-        value = field.deserialize(source_val)
+        try:
+            value = field.deserialize(source_val)
+        except ValueError as e:
+            prefix = "" if str(e).startswith(f"{name}:") else f"{name}: "
+            raise ValueError(f"{prefix}{str(e)}") from e
     elif isinstance(field, Anything) or field is None:
         value = source_val
     elif isinstance(field, NoneField):
